@@ -320,6 +320,10 @@ def make_class(config):
         Prog.test_it = testtools.skip("")(Prog.test_it)
     elif dec == "skipIf_empty_reason":
         Prog.test_it = testtools.skipIf(True, "")(Prog.test_it)
+    elif dec == "skip_nonstr_reason":
+        Prog.test_it = testtools.skip(42)(Prog.test_it)  # (skipTest documents: anything str() accepts)
+    elif dec == "skip_surrogate_reason":
+        Prog.test_it = testtools.skip("no such file: name-\udcff")(Prog.test_it)  # os.fsdecode of an undecodable name
     elif dec == "unittest_skip_bare":
         Prog.test_it = unittest.skip(Prog.test_it)  # used without arguments: the reason is ''
     elif dec == "custom_skipexception":
@@ -374,6 +378,8 @@ class ModelRun:
             "skip_empty_reason",
             "skipIf_empty_reason",
             "unittest_skip_bare",
+            "skip_nonstr_reason",
+            "skip_surrogate_reason",
             "skip_method",
             "skipIf_method",
             "skipUnless_method",
